@@ -311,7 +311,9 @@ class Ref:
             self.cnt[id_] = len(self.ent[id_])
 
     def dup_hazard(self):
-        return any(self.alloc.get(i) and self.cnt.get(i, 0) == 0 for i in range(2, len(self.attrs)))
+        # fixed in /repo 4d6acad: dup clears the copied targets pointer of attributes without targets.
+        # (alloc/cnt are still tracked; the `dupfree` stream keeps exercising exactly that state.)
+        return False
 
     def _touching(self, id_, e):
         if e.apply is None:
@@ -529,9 +531,9 @@ class Ref:
                 self.taint.add((id_, gp))
                 if created:
                     self.unchecked.add((id_, gp))
-        un = init[0] == "o" and not created
-        if un:
-            self.flags.add("uninit")
+        # fixed in /repo c37319b: to_internal_location() now sets the cached object pointer,
+        # so an object initiator appended to an existing (refreshed) target is well defined
+        un = False
         if init[0] == "o" and self.internal:
             self.hazard.add(id_)
         tg.keys.append([init, value, un])
@@ -742,6 +744,15 @@ class Ref:
                         msgs.append("selected nodes os=%d and os=%d have intersecting cpusets" % (sel[i].os, sel[j].os))
             if not sel:
                 msgs.append("empty default nodeset")
+            # the documented algorithm ("already taken?" meaning: this node is already in the nodeset);
+            # the code tests bit i (position in the os_index-sorted array) instead of nodes[i]->os_index
+            want, coded = default_nodeset_algo(nodes, self.topo.root, False), default_nodeset_algo(nodes, self.topo.root, True)
+            if not msgs and s != want:
+                if s == coded:
+                    msgs.append(("os-index-vs-array-index", "second loop skips a node because bit <array index> is set: got %s, "
+                                 "the documented algorithm gives %s" % (fset(s), fset(want))))
+                else:
+                    msgs.append("nodeset %s is neither the documented (%s) nor the coded (%s) result" % (fset(s), fset(want), fset(coded)))
             return msgs
         return Exp(None, check=chk)
 
@@ -804,7 +815,10 @@ class Ref:
         elif e.check is not None:
             self.stats["checked"] += 1
             for m in e.check(rline):
-                out.append((op + ":prop", i, "%s: %s (%s)" % (line, m, rline)))
+                sub = "prop"
+                if isinstance(m, tuple):
+                    sub, m = m
+                out.append((op + ":" + sub, i, "%s: %s (%s)" % (line, m, rline)))
         else:
             self.stats["unchecked_results"] += 1
         if e.info.get("sametable") and table is not None and rline.startswith("R %s rc=0 " % op) and table.sig() != self.topo.sig():
@@ -815,6 +829,38 @@ class Ref:
         if e.apply is not None:
             e.apply(rline, table)
         return out
+
+
+def default_nodeset_algo(nodes, root, index_quirk):
+    """hwloc_topology_get_default_nodeset(); index_quirk=True reproduces the test
+    hwloc_bitmap_isset(nodeset, i) of the second loop, False tests nodes[i]->os_index."""
+    ns = sorted(nodes, key=lambda n: n.os)
+    if not ns:
+        return 0
+    first = ns[0]
+    res, rem = 1 << first.os, root & ~first.cpuset
+    done = False
+    for n in ns[1:]:
+        if n.subtype != first.subtype:
+            continue
+        if n.cpuset & ~rem == 0:
+            res |= 1 << n.os
+            rem &= ~n.cpuset
+        if rem == 0:
+            done = True
+            break
+    if not done:
+        for i, n in enumerate(ns):
+            if i == 0:
+                continue
+            if (res >> (i if index_quirk else n.os)) & 1:
+                continue
+            if n.cpuset & ~rem == 0 and n.cpuset:
+                res |= 1 << n.os
+                rem &= ~n.cpuset
+            if rem == 0:
+                break
+    return res
 
 
 def spec_eval(case, trans, types=None):
